@@ -100,6 +100,7 @@ class C05(engine.Property):
         "half-attached-edge-completed-from-the-vertex-side",
         "unset-end-dropped-from-an-edge",
         "end-assignment-on-an-edge-naming-a-further-vertex",
+        "adjacency-values-are-a-running-traversal",
     ]
 
     # -- configuration -------------------------------------------------------------
@@ -145,6 +146,9 @@ class C05(engine.Property):
             }
         cfg["universes_as_ends"] = rng.random() < 0.3
         cfg["p_repair"] = 0.06 if cfg["p_none"] else rng.choice([0.0, 0.04])
+        cfg["lazy_adjacency"] = rng.random() < 0.25
+        if cfg["lazy_adjacency"]:
+            cfg["weights"]["adj_dict"] = max(3, cfg["weights"].get("adj_dict", 0))
         if rng.random() < 0.08:
             # a vertex class with its own __setstate__ (matters across a restart)
             cfg["vertex_classes"] = ["Vertex", "MigratingVertex"]
@@ -265,7 +269,11 @@ class C05(engine.Property):
         if kind is None:
             kind = gen.weighted_choice(rng, cfg["weights"])
         if kind == "adj_dict":
-            return gen.g_adj_dict(st.gen, rng, st.view, st.namer)
+            op = gen.g_adj_dict(st.gen, rng, st.view, st.namer)
+            if op is not None and cfg.get("lazy_adjacency") and rng.random() < 0.5:
+                op["vals_as"] = "ibft"
+                st.stats["probe:adjacency-values-are-a-running-traversal"] += 1
+            return op
         if kind == "adj_matrix":
             return gen.g_adj_matrix(st.gen, rng, st.view, st.namer)
         return st.gen.draw(rng, st.view, st.namer, kind)
